@@ -425,7 +425,51 @@ def to_string_int(ex, st, fr, ins, name, argv):
 
 
 def strlen_(ex, st, fr, ins, name, argv):
-    return ic('i64', len(cstr(ex, st, argv[0])))
+    p = argv[0]
+    try:
+        return ic('i64', len(cstr(ex, st, p)))
+    except Unsupported:
+        pass
+    # symbolic bytes: one successor state per position of the first NUL inside the object; if there is none the scan
+    # leaves the object (out-of-bounds read)
+    if not isinstance(p, Ptr) or p.region is None or st.regions[p.region].name == 'any-string':
+        raise Unsupported('strlen of an abstract string')
+    reg = st.regions[p.region]
+    if reg.size - p.off > 64:
+        raise Unsupported('strlen over more than 64 symbolic bytes')
+    res, normal = ins.res, ins.a[3]
+    out = []
+    cur = st
+    for i in range(reg.size - p.off):
+        b = ex.load(cur, Ptr(p.region, p.off + i), ('int', 8))
+        if not isinstance(b, tm.T):
+            raise Unsupported('strlen byte %r' % (b,))
+        z = mk('icmp', 'i1', 'eq', b, ic('i8', 0))
+        if tm.is_ic(z):
+            if z.args[0]:
+                break
+            continue
+        s2 = cur.clone()
+        s2.assume(z)
+        f2 = s2.frames[-1]
+        if res is not None:
+            f2.env[res] = ic('i64', i)
+        if normal is not None:
+            ex.jump(s2, f2, normal)
+        out.append(s2)
+        cur.assume(tm.negate(z))
+    else:
+        cur.ub.append(('load out of bounds', 'strlen runs past the end of %s (no terminating NUL inside the object)' % reg.name))
+        cur.status = 'ub-out-of-bounds'
+        out.append(cur)
+        return out
+    f2 = cur.frames[-1]
+    if res is not None:
+        f2.env[res] = ic('i64', i)
+    if normal is not None:
+        ex.jump(cur, f2, normal)
+    out.append(cur)
+    return out
 
 
 def emit(ex, st, fr, ins, name, argv):
